@@ -63,7 +63,7 @@ fn t(name: &str, code: String, budgets: &[(&str, u32)]) -> Template {
 	}
 }
 
-pub const N_TEMPLATES: usize = 48;
+pub const N_TEMPLATES: usize = 50;
 
 pub fn template(idx: usize, c: i64) -> Template {
 	match idx % N_TEMPLATES {
@@ -293,6 +293,16 @@ pub fn template(idx: usize, c: i64) -> Template {
 			"standalone-super-views-share-the-layer-memo",
 			format!("local base = {{ f: std.trace('L1', {c}), g: std.trace('L2', 2), h:: error 'bomb1' }}; local d = base + {{ a: (local s = super; s.f), b: (local s = super; s.f), via: std.get(super, 'g'), direct: super.g, again: std.get(super, 'g'), has: std.objectHas(super, 'h') }}; {{ r1: d.a + d.b, r2: [d.via, d.direct, d.again], r3: d.has, r4: d.a }}"),
 			&[("L1", 1), ("L2", 1)],
+		),
+		47 => t(
+			"callback-defaults-once-per-call",
+			format!("local cb = function(x, d=std.trace('L1', {c})) d + d + x; {{ r1: std.map(cb, [1]), r2: std.foldl(function(acc, e, k=std.trace('L2', 2)) acc + e + k + k, [1], 0), r3: std.sort([3], keyF=function(v, w=std.trace('L3', 3)) v + w + w), r4: std.makeArray(1, function(i, z=std.trace('L4', 4)) i + z + z), r5: std.filter(function(v, t=std.trace('L5', 5)) t + t > v, [1]) }}"),
+			&[("L1", 1), ("L2", 1), ("L3", 1), ("L4", 1), ("L5", 1)],
+		),
+		48 => t(
+			"mapped-array-element-through-several-views",
+			format!("local m = std.makeArray(2, function(i) std.trace('L1', i + {c})), n = std.map(function(x) std.trace('L2', x * 2), std.range(1, 3)); local v = m + [9], w = [x for x in n]; {{ r1: v[0], r2: m[0], r3: [x for x in m][0], r4: m[0], r5: w[1] + n[1], r6: std.reverse(v)[2] + std.sort(n)[1], r7: v[0:1][0] + std.set(n)[0] }}"),
+			&[("L1", 1), ("L2", 3)],
 		),
 		_ => t(
 			"import-evaluated-once",
